@@ -142,6 +142,10 @@ def shard(p):
                 try:
                     if s["meta"] == "lost":
                         os.unlink(mp)
+                    elif s["meta"] in ("version-only", "hash-null"):
+                        m = json.load(open(mp))
+                        m = {"version": m.get("version")} if s["meta"] == "version-only" else {"version": m.get("version"), "database_hash": None}
+                        json.dump(m, open(mp, "w"))
                     else:
                         open(mp, "w").write("{ not json")
                 except Exception as ex:
@@ -193,6 +197,7 @@ def run(tier, seed):
                 dict(mode="disk", label=tag + ":reopen-after-rebuild", **kw),
                 dict(mode="disk", label=tag + ":start-after-meta-lost", meta="lost", **kw), dict(mode="disk", label=tag + ":reopen-after-meta-lost", **kw),
                 dict(mode="disk", label=tag + ":start-after-meta-garbage", meta="garbage", **kw),
+                dict(mode="disk", label=tag + ":start-after-meta-without-hash", meta=["version-only", "hash-null"][h64(tag) % 2], **kw),
                 dict(mode="disk", label=tag + ":killed-start", crash=["after_commit", "after_reload", "before_write_meta", "meta_created_empty", "before_commit", "deleted_all"][h64(tag) % 6], mismatch=True, **kw),
                 dict(mode="disk", label=tag + ":start-after-killed-start", **kw), dict(mode="disk", label=tag + ":reopen-after-killed-start", **kw)]
     nrounds = 3 if tier == "quick" else 40
